@@ -372,7 +372,9 @@ class BaseSubscription:
                 matched.add(event.created_at < query.until)
             if query.tags:
                 for tagname, values in query.tags:
-                    matched.add(all(event.has_tag(tagname, values)))
+                    found, match = event.has_tag(tagname, values)
+                    # the matching value can be an empty string
+                    matched.add(found and match is not None)
             if matched and all(matched):
                 return True
         return False
